@@ -157,7 +157,7 @@ func dischargeAll(obls []*Obligation, workDir string, timeoutS int, all bool, se
 			continue
 		}
 		for i, vc := range ob.VCs {
-			q := &Query{Assumps: vc.Assumps, Goal: vc.Goal, Comment: ob.Name + "\n" + ob.Desc + "\nfrom: " + vc.From + " " + ob.Pos}
+			q := &Query{Assumps: vc.Assumps, Goal: vc.Goal, Comment: ob.Name + "\n" + strings.ReplaceAll(vc.Note, "\n", " ") + "\nfrom: " + vc.From + " " + ob.Pos}
 			fn := filepath.Join(workDir, sanitizeFile(ob.Name)+fmt.Sprintf(".%d.smt2", i))
 			os.WriteFile(fn, []byte(q.Render(true, nil)), 0o644)
 			tasks = append(tasks, task{ob, fn, i, vc.Goal == nil})
